@@ -7,6 +7,7 @@ import SfntV.Proofs.NamesCodec
 import SfntV.Proofs.NamesPost
 import SfntV.Proofs.NamesTable
 import SfntV.Proofs.NamesLocale
+import SfntV.Proofs.NamesChoose
 import SfntV.Spec.Names
 
 namespace SfntV.Props.C14
@@ -106,6 +107,18 @@ theorem C14_name_order_independent (o₁ w₁ o₂ w₂ : List (Nat × String)) 
   obtain ⟨d₂, e₂, g₂⟩ := C14_name_roundtrip o₂ w₂ info winEid h₂
   exact ⟨d₁, d₂, e₁, e₂, fun p t i => by rw [g₁, g₂]⟩
 
+/-- After the repair of `Encode` (language ids visited in increasing order) the encoder is a
+function of the Info alone — `nameEncode` has no order parameter — and the round trip holds
+for it: the sorted enumeration is one of the orders `C14_name_roundtrip` quantifies over. -/
+theorem C14_name_encode_roundtrip (info : List Entry) (winEid : Nat)
+    (h : NameDomain (sortLangs Gen.appleBCP) (sortLangs Gen.msBCP) info winEid) :
+    (∀ lt, lt ∈ sortLangs Gen.appleBCP ↔ lt ∈ Gen.appleBCP) ∧
+    (∀ lt, lt ∈ sortLangs Gen.msBCP ↔ lt ∈ Gen.msBCP) ∧
+    ∃ dec, nameDecode (nameEncode info winEid) = some dec ∧
+      ∀ p t i, getVal dec p t i = getVal info p t i :=
+  ⟨fun lt => mem_sortLangs lt _, fun lt => mem_sortLangs lt _,
+   C14_name_roundtrip _ _ info winEid h⟩
+
 /-- non-vacuity: a two-platform Info (shared string, Mac Roman and supplementary characters)
 lies in the domain for the source order of the tables -/
 example : NameDomain Gen.appleBCP Gen.msBCP
@@ -115,6 +128,37 @@ example : NameDomain Gen.appleBCP Gen.msBCP
   ms_ok := ⟨C14_language_tables_ok.2.2.1, C14_language_tables_ok.2.2.2⟩
   mac_order := fun _ => Iff.rfl
   win_order := fun _ => Iff.rfl
+  keys := by unfold keysNodup; decide
+  plat := by decide
+  mac := by
+    intro e he hp
+    simp only [List.mem_cons, List.not_mem_nil, or_false] at he
+    rcases he with rfl | rfl | rfl | rfl
+    · exact ⟨⟨0, by decide +kernel⟩, by decide +kernel⟩
+    · exact ⟨⟨2, by decide +kernel⟩, by decide +kernel⟩
+    · cases hp
+    · cases hp
+  win := by
+    intro e he hp
+    simp only [List.mem_cons, List.not_mem_nil, or_false] at he
+    rcases he with rfl | rfl | rfl | rfl
+    · cases hp
+    · cases hp
+    · exact ⟨⟨1033, by decide +kernel⟩, by decide +kernel⟩
+    · exact ⟨⟨1033, by decide +kernel⟩, by decide +kernel⟩
+  ids := by decide
+  eid := Or.inl rfl
+  fits_records := by decide +kernel
+  fits_storage := by decide +kernel
+
+/-- the same Info lies in the domain for the increasing order the repaired encoder uses -/
+example : NameDomain (sortLangs Gen.appleBCP) (sortLangs Gen.msBCP)
+    [⟨1, "en", 1, [70, 0x2260]⟩, ⟨1, "de", 4, [70, 0x2260]⟩, ⟨3, "en-US", 1, [70, 0x1F600]⟩,
+     ⟨3, "en-US", 300, [0x4E2D]⟩] 1 where
+  apple_ok := ⟨C14_language_tables_ok.1, C14_language_tables_ok.2.1⟩
+  ms_ok := ⟨C14_language_tables_ok.2.2.1, C14_language_tables_ok.2.2.2⟩
+  mac_order := fun lt => mem_sortLangs lt _
+  win_order := fun lt => mem_sortLangs lt _
   keys := by unfold keysNodup; decide
   plat := by decide
   mac := by
@@ -173,5 +217,40 @@ theorem C14_tag_string_roundtrip (s l : List Nat) (hs : OTScript s) (hl : OTLang
 example : OTScript [108, 97, 111, 32] ∧ OTLang [78, 76, 68, 32] ∧
     extString [108, 97, 111, 32] [78, 76, 68, 32] = [120, 45, 108, 97, 111, 45, 110, 108, 100] :=
   ⟨isOTScriptB_sound _ (by decide), isOTLangB_sound _ (by decide), by decide⟩
+
+/-- `Tables.Choose`, up to the external matcher: the candidate list handed to
+`language.NewMatcher` contains exactly the map's keys, and it is the same list for every
+iteration order of the Go map (so, for a deterministic matcher, `Choose` returns the same table
+on every call). -/
+theorem C14_choose_order_deterministic (t₁ t₂ : List (List Nat × Nat)) (hd : KeysDistinct t₁)
+    (hp : t₁.Perm t₂) :
+    chooseOrder t₁ = chooseOrder t₂ ∧ (chooseOrder t₁).Perm (t₁.map (·.1)) ∧
+      ∀ idx, choose t₁ idx = choose t₂ idx := by
+  have h := chooseOrder_perm_invariant t₁ t₂ hd hp
+  refine ⟨h, chooseOrder_perm t₁, fun idx => ?_⟩
+  unfold choose
+  rw [h]
+  by_cases h1 : t₁ = []
+  · subst h1
+    have : t₂ = [] := List.Perm.eq_nil hp.symm
+    subst this; rfl
+  · have h2 : t₂ ≠ [] := fun e => h1 (by subst e; exact List.Perm.eq_nil hp)
+    simp [h1, h2]
+
+/-- The matcher's default (index 0, returned when no preference matches) is a table of maximal
+preference: ten points per name, +55 for `en-US`, +5 for other English tags. -/
+theorem C14_choose_default_is_best (tt : List (List Nat × Nat)) (e : List Nat × Nat)
+    (rest : List (List Nat × Nat)) (h : tt.mergeSort chooseLe = e :: rest) :
+    choose tt 0 = some e.1 ∧ ∀ x ∈ tt, choosePref x ≤ choosePref e := by
+  refine ⟨?_, choose_head_max tt e rest h⟩
+  have : tt ≠ [] := by
+    intro e'; subst e'; simp at h
+  simp [choose, chooseOrder, this, h]
+
+example : choosePref (enUS, 1) = 65 ∧ choosePref (enKey, 6) = 65 ∧ choosePref ([100, 101], 7) = 70 ∧
+    chooseLe (enKey, 6) (enUS, 1) = true ∧ chooseLe (enUS, 1) (enKey, 6) = false ∧
+    KeysDistinct [([100, 101], 7), (enUS, 1), (enKey, 6)] := by
+  refine ⟨by decide, by decide, by decide, by decide, by decide, ?_⟩
+  unfold KeysDistinct; decide
 
 end SfntV.Props.C14
